@@ -423,7 +423,7 @@ impl Check for C07 {
             Tier::Quick => 4,
             Tier::Thorough => 6,
         };
-        let dir = format!("/verif/scratch/c07inc_{}", std::process::id());
+        let dir = format!("{}/c07inc_{}", crate::engine::run_dir(), std::process::id());
         std::fs::create_dir_all(&dir).expect("scratch include dir");
         for k in 0..64 {
             std::fs::write(format!("{}/c07inc{}.h", dir, k), format!("char inc{};\n", k)).expect("write include");
